@@ -167,6 +167,8 @@ fixed("F66", "C16", "2dc402d", "C16.lookahead-nesting|depth|Parser::<'a>::parse_
 fixed("F67", "C16", "3dc550a", "C16.block-scope|block|MIR-generator", "`let x = 1.0  let y = { let x = 2.0  x }  x + y` gave 4.0 on both back ends (3.0 with the inner binder renamed to z): the type checker opens a scope for a block, the MIR generator evaluated the body in the enclosing environment, so the inner `let` replaced the outer binding for the rest of the function (findings/repro/F67_*.mmm)")
 fixed("F68", "C17", "aef7ba1", "C17.routes|final-target|convert_qualified_var", "`mod internal { fn secret(){ 42.0 } }  mod api { pub use internal::secret }  fn dsp(){ api::secret() }` compiled and returned 42.0: the qualified route checked the visibility of `api$secret` (public by construction of the re-export) and then handed out `internal$secret` without checking it (findings/repro/F68_*.mmm)")
 fixed("F69", "C18", "fd781a2", "C18.prims|rust-array-index", "`a[1.0/0.0]`: after the VM was aligned with the WASM back end (F27) the Rust generator still wrote `else if !index_value.is_finite() { 0usize }` into the generated program: element 0 in the transpiled program, the last element on the VM. Found by the new generated-source rule (the statement is a string constant of the generator, parsed and evaluated); reported independently by a seeding agent from reading the code")
+for _a in ("Mem", "Delay"):
+    fixed("F70", "C18", "dfac186", "C18.borrow|arm|" + _a, "`fn dsp(){ let t = (now, 2.0)  mem(t.0) }`: the generated program holds `state` (&mut of the state storage) while it evaluates the operand, and a tuple element is read through `self.memory`: rustc rejects the transpiled program with E0502 (findings/repro/F70_*.mmm; `mimium-cli --emit-rust` + `rustc --crate-type lib`)")
 fixed("F64", "C16", "cfb0ebe", "C16.invented-names|binder|record_update_temp", "`let record_update_temp = 7.0  let q = {r <- a = record_update_temp}` failed to type-check (the desugared record update binds a temporary of that name, and the type checker special-cases the name): the temporary is now called `record_update$temp`, which no program can spell (findings/repro/F64_*.mmm)")
 
 
